@@ -643,6 +643,14 @@ pub fn wide_interest(w: u32) -> Vec<i128> {
     vec![smin(w) as i128, -half, -129, -128, -1, 0, 127, 128, 255, 256, half - 1, half, smax(w) as i128]
 }
 
+/// Report a violation; when a single case is replayed also print what was observed.
+pub fn viol(ctx: &Ctx, key: String, case: serde_json::Value, detail: serde_json::Value) {
+    if ctx.replay_case().is_some() {
+        eprintln!("violation [{key}]\n  case:   {case}\n  detail: {detail}");
+    }
+    ctx.violation(key, case, detail);
+}
+
 // ---------------------------------------------------------------- per-worker counters
 
 #[derive(Default)]
